@@ -96,6 +96,12 @@ struct Local {
     opt_q: bool,
 }
 
+thread_local! {
+    // C06: the next injected static-rule violation uses this (rule, sub-form) instead of random ones, so that the
+    // catalogue x form product is covered evenly; consumed by the first call of `violation`
+    pub static FORCE_RULE: std::cell::Cell<Option<(usize, usize)>> = std::cell::Cell::new(None);
+}
+
 #[derive(Clone, Debug, Default)]
 pub struct Opts {
     /// stay inside the order-insensitive fragment of C02/C08
@@ -288,7 +294,12 @@ impl<'a> Gen<'a> {
                 4 => format!("(or {} {})", self.expr(Ty::Bool, d, need_local), self.expr(Ty::Bool, d, need_local)),
                 5 => {
                     let t = *self.r.pick(&[Ty::Int, Ty::Str, Ty::Bool]);
-                    format!("(eq {} {})", self.expr(t, d, need_local), self.expr(t, d, need_local))
+                    // null compares with values of every type, on either side
+                    match self.r.below(6) {
+                        0 => format!("(eq {} #null)", self.expr(t, d, need_local)),
+                        1 => format!("(eq #null {})", self.expr(t, d, need_local)),
+                        _ => format!("(eq {} {})", self.expr(t, d, need_local), self.expr(t, d, need_local)),
+                    }
                 }
                 6 => {
                     let opts = self.captures_with(&|q| q == CaptureQuantifier::ZeroOrOne);
@@ -666,8 +677,11 @@ impl<'a> Gen<'a> {
         let inner: Vec<Local> = self.scopes.last().unwrap().clone();
         let immut = self.lookup_locals(&|l| !l.mutable);
         let gone: Vec<String> = self.popped.iter().filter(|n| !self.visible(n)).cloned().collect();
-        for _ in 0..40 {
-            match self.r.below(18) {
+        let forced = FORCE_RULE.with(|c| c.take());
+        for attempt in 0..40 {
+            let rule_pick = self.r.below(18);
+            let rule_pick = match forced { Some((rule, _)) if attempt == 0 => rule % 18, _ => rule_pick };
+            match rule_pick {
                 0 => {
                     let (p, l, f) = self.embed_expr("zundefined");
                     return self.emit_fault(indent, "undefined-variable", "UndefinedVariable", f, &p, &l, Some("zundefined"));
@@ -706,7 +720,9 @@ impl<'a> Gen<'a> {
                 }
                 7 if !self.globals.is_empty() => {
                     let g = self.r.pick(&self.globals.clone()).0.clone();
-                    let (line, form) = match self.r.below(6) {
+                    let sub = self.r.below(6);
+                    let sub = match forced { Some((_, f)) if attempt == 0 => f % 6, _ => sub };
+                    let (line, form) = match sub {
                         0 => (format!("let {} = 1", g), "let"),
                         1 => (format!("var {} = 1", g), "var"),
                         2 => (format!("node {}", g), "node"),
@@ -1133,8 +1149,9 @@ pub fn gen_program(r: &mut Rng, pool: &[Pattern], opts: &Opts) -> Program {
     // header- and stanza-level violations are chosen up front
     let header_rule = if opts.static_fault == 1 { g.r.below(10) } else { 99 };
     let mut globals_out = Vec::new();
-    // globals
-    if g.r.chance(1, 3) {
+    // globals (always present when the violation to inject is about a global)
+    let need_globals = FORCE_RULE.with(|c| { let v = c.get(); matches!(v, Some((r, _)) if r % 18 == 6 || r % 18 == 7) });
+    if g.r.chance(1, 3) || need_globals {
         g.feature("global-decl");
         for i in 0..g.r.range(1, 2) {
             let name = format!("G{}", i);
@@ -1242,6 +1259,14 @@ pub fn gen_program(r: &mut Rng, pool: &[Pattern], opts: &Opts) -> Program {
         if g.r.chance(1, 2) {
             stanzas.push(format!("{} @ed3 {{\n  edge @ed3.gn -> @ed3.gn{}\n}}\n", pat, second));
         }
+    }
+    if opts.fragment && g.r.chance(1, 5) {
+        // an assignment whose new value mentions the variable's previous value AND a scoped variable that another stanza
+        // defines on the same node: deferred like every other value (C08)
+        g.feature("self-referential-set-reads-scoped");
+        let pat = *g.r.pick(&["(module)", "(identifier)", "(pass_statement)"]);
+        stanzas.push(format!("{} @sb {{\n  let @sb.base = 10\n}}\n", pat));
+        stanzas.push(format!("{} @su {{\n  node sun\n  var total = 1\n  set total = (plus total @su.base)\n  attr (sun) total = total\n}}\n", pat));
     }
     if opts.scoped_heavy {
         g.feature("scoped-heavy");
